@@ -13,6 +13,7 @@ and the observation is projected (same projection for replay and for recording).
 """
 from __future__ import annotations
 
+import asyncio
 import importlib
 import itertools
 import os
@@ -142,6 +143,7 @@ class System:
                      for u in subs}
         self.neid = 0
         self.errors = []
+        self.dead = False
 
     # ------------------------------------------------------------------ commands
     def _subscribe(self, after):
@@ -217,26 +219,54 @@ class System:
         else:
             raise ValueError(op)
 
+    def _quiesce(self):
+        """Run the loop until quiescent; code that never becomes quiescent (a livelock) is recorded as an error
+        (judged by the observer, clause no_error) instead of hanging the check."""
+        if self.dead:
+            return
+        try:
+            self.loop.quiesce(max_rounds=3000)
+        except RuntimeError as e:
+            self.dead = True
+            self.errors.append("livelock: %s" % e)
+            for t in asyncio.all_tasks(self.loop):
+                t.cancel()
+            try:
+                self.loop.quiesce(max_rounds=3000)
+            except RuntimeError:
+                pass
+
     def apply(self, cmds):
         """Issue the enabled commands of the batch, quiesce, project.  Returns (issued, post)."""
         issued = []
         for c in cmds:
+            if self.dead:
+                break
             if c["op"] == "tick":
-                self.loop.quiesce()
-                self.loop.advance(POLL)
+                self._quiesce()
+                if not self.dead:
+                    try:
+                        self.loop.advance(POLL)
+                    except RuntimeError as e:
+                        self.dead = True
+                        self.errors.append("livelock: %s" % e)
                 issued.append(c)
                 continue
             if c["op"] == "reconnect":
-                self.loop.quiesce()      # acts synchronously on the consumer side: drain the loop first
+                self._quiesce()          # acts synchronously on the consumer side: drain the loop first
             if self.enabled(c):
                 self._issue(c)
                 issued.append(c)
-        self.loop.quiesce()
+        self._quiesce()
         return issued, self.project()
 
     def query_log(self):
+        if self.dead:
+            return []
         t = self.loop.create_task(self.store.query_events(self.run))
-        self.loop.quiesce()
+        self._quiesce()
+        if not t.done():
+            return []
         _, _, ab, _ = mods()
         if t.exception() is not None:          # recorded, judged by the observer (clause no_error)
             self.errors.append("query_events: %r" % t.exception())
